@@ -115,6 +115,7 @@ def run_mode(mode, text, cfg, tmp, shared):
         from docutils.frontend import get_default_settings
         from docutils.readers.standalone import Reader
         from docutils.utils import new_document
+        from docutils.writers.null import Writer
 
         from myst_parser.parsers.docutils_ import Parser
 
@@ -123,7 +124,7 @@ def run_mode(mode, text, cfg, tmp, shared):
         st_ = pool.get(key)
         stream = io.StringIO()
         if st_ is None:
-            st_ = get_default_settings(Parser, Reader)
+            st_ = get_default_settings(Parser, Reader, Writer)
             for k, v in front.base_settings(stream).items():
                 setattr(st_, k, v)
             for k, v in cfg.items():
@@ -133,7 +134,7 @@ def run_mode(mode, text, cfg, tmp, shared):
         document = new_document(os.path.join(tmp, "main.md"), st_)
         parser = Parser()
         parser.parse(text, document)
-        document.transformer.populate_from_components((Reader(), parser))
+        document.transformer.populate_from_components((Reader(), parser, Writer()))  # (as publish_doctree does)
         document.transformer.apply_transforms()
         return normalise(document.pformat() + "\n--\n" + stream.getvalue(), tmp)
     if mode == "sphinx":
